@@ -701,7 +701,18 @@ def explore_life(cfg, rep):
             rep.nt(digest(('life', cfg['shape'], cfg['reg'], tuple(ch.choices))))
         rep.outcome('lifespan:%s:%s' % (exp_ev[-1][0].replace('lifespan.', ''), 'ok' if ok else 'DISAGREE'))
 
-    n_exec, n_points, capped = choice.explore(run, 99)
+    # NOTE: ONE app object serves every lifespan cycle explored here, as one app serves the successive
+    #   lifespans of a real server process.  If what the framework does in a later cycle depends on an
+    #   earlier one (a handler list consumed, an iterator exhausted ...) the recorded choice points of a
+    #   replayed prefix no longer line up: that divergence IS the violation, not harness noise.
+    try:
+        n_exec, n_points, capped = choice.explore(run, 99)
+    except choice.Nondeterminism as e:
+        rep.violation({'kind': 'lifespan-depends-on-earlier-cycles'},
+                      {'lifespan': True, 'cfg': cfg, 'choices': [], 'repeat': 2},
+                      'lifespan shape=%r reg=%s: the same app was taken through several startup/shutdown cycles and a later '
+                      'cycle did not reach the handler calls the first one reached (%s)' % (cfg['shape'], cfg['reg'], e))
+        n_points = 0
     rep.c['configs'] += 1
     rep.c['choice_points'] += n_points
 
@@ -838,6 +849,9 @@ def replay(rec):
     if rec.get('lifespan'):
         b = build_life(cfg)
         ok, tr, exp_ev = life_run(cfg, b, ch, rep)
+        for _ in range(rec.get('repeat', 1) - 1):
+            # further cycles on the same app must behave like the first
+            ok, tr, exp_ev = life_run(cfg, b, choice.Chooser(tuple(rec['choices'])), rep)
         out = {'real_trace': tr, 'expected_events': exp_ev}
     else:
         cfg['hooks'] = _tup(cfg['hooks'])
